@@ -163,10 +163,14 @@ Fixpoint aexec (p : stmt) (cur : bool) (a : ast) : list (ast * ares) :=
   | SSkip => [(a, ARNorm)]
   | SOp o => aexec_op o a
   | SPure PBaselineEmpty => [(up_bl VEmpty a, ARNorm)]
-  | SPure PPipe => match a_bl a with
-                   | VNew => [(up_top a, ARNorm)]
-                   | v => [(up_cont true (Some v) a, ARNorm); (up_cont false (Some v) a, ARNorm)]
-                   end
+  | SPure PPipe =>
+      (* the text is computed once, before anything was written *)
+      match a_piped a, a_tgt a, a_tmp a, a_bl a, a_ver a with
+      | None, TOld, MNone, VNew, _ => [(up_top a, ARNorm)]
+      | None, TOld, MNone, _, VNew => [(up_top a, ARNorm)]
+      | None, TOld, MNone, v, _ => [(up_cont true (Some v) a, ARNorm); (up_cont false (Some v) a, ARNorm)]
+      | _, _, _, _, _ => [(up_top a, ARNorm)]
+      end
   | SValidate =>
       (a, ARNorm) ::
       (if existsb (fun f => match f with AFPerm | AFOther => true | _ => false end) (x_allowed X) then [(a, ARRet (RetErr E_PATH))] else []) ++
@@ -217,14 +221,16 @@ Definition chk_error (X : aenv) (t : ast * ares) : bool :=
   let (a, r) := t in
   negb (a_top a) &&
   (if is_err r then tgt_old a && (a_ulfail a || tmp_none a) && (negb (x_par0 X) || negb (a_dirs a)) else true).
-(* success: a real (non-dry) success installed the complete new file and left no temp *)
-Definition chk_success (X : aenv) (t : ast * ares) : bool :=
+(* success: a real (non-dry) success installed the complete new file and left no temp; a dry success
+   (corrections_only; WriteTool.execute only) touched nothing *)
+Definition chk_success (dry : bool) (t : ast * ares) : bool :=
   let (a, r) := t in
   negb (a_top a) &&
-  (if is_ok r then a_cont a && (if x_dry X then tgt_old a && tmp_none a && negb (a_dirs a)
+  (if is_ok r then a_cont a && (if dry then tgt_old a && tmp_none a && negb (a_dirs a)
                                 else negb (tgt_old a) && tmp_none a) else true).
-(* a crash leaves at most the one temp file besides old/new *)
-Definition chk_all (X : aenv) (t : ast * ares) : bool := chk_atomic t && chk_error X t && chk_success X t.
+Definition dry_of (p : proto_id) (X : aenv) : bool := match p with PExecute _ => x_dry X | PAtomic => false end.
+Definition chk_all (p : proto_id) (X : aenv) (t : ast * ares) : bool :=
+  chk_atomic t && chk_error X t && chk_success (dry_of p X) t.
 
 Definition all_faults : list afault := [AFOk; AFPerm; AFOther; AFCrash].
 Definition bools := [true; false].
@@ -236,4 +242,4 @@ Definition all_protos : list proto_id := [PExecute MContent; PExecute MChanges; 
 Definition outcomes (X : aenv) (p : proto_id) : list (ast * ares) := aexec X (proto_of p) false (a_init X).
 
 Definition check_protos : bool :=
-  forallb (fun p => forallb (fun X => forallb (chk_all X) (outcomes X p)) (all_aenv all_faults)) all_protos.
+  forallb (fun p => forallb (fun X => forallb (chk_all p X) (outcomes X p)) (all_aenv all_faults)) all_protos.
